@@ -1508,4 +1508,13 @@ example : RelabelOK [(.str "a", .str "x"), (.str "b", .int 7)] [([.str "a", .str
         (e.1.map (mapLabel [(.str "a", .str "x"), (.str "b", .int 7)])).Nodup) :=
   ⟨⟨by decide +kernel, by decide +kernel⟩, by decide +kernel⟩
 
+/-- the same from the LABEL-level conditions: the mapping is injective on the polynomial's variables and a variable that changes gets
+    a label that is not a variable of the polynomial (for a conflict-free dict that `iter_safe_relabels` accepts: new labels pairwise
+    different, none of them an existing variable) -/
+theorem poly_object_relabel_energy_of_labels (x : Label → Rat) (m : List (Label × Label)) (s : PolyState) (hs : TermsOK s)
+    (hinj : ∀ v w, v ∈ stateVars s → w ∈ stateVars s → mapLabel m v = mapLabel m w → v = w)
+    (hfresh : ∀ v ∈ stateVars s, mapLabel m v ≠ v → mapLabel m v ∉ stateVars s) :
+    polyEnergy x (relabelStep m s) = polyEnergy (fun v => x (mapLabel m v)) s :=
+  relabelStep_energy x m s hs (relabelOK_of_labels m s hinj hfresh) (relabel_inj_on_terms m s hs hinj)
+
 end C15
